@@ -24,14 +24,14 @@ func init() {
 			"Oracle 2 (abandoned caller): after every cancellation a follow-up blocking report from another source must return; if it does not, two goroutine dumps showing the monitor parked in a channel send are the violation, anything else is inconclusive. " +
 			"distinct_nontrivial = distinct (placement, layer class, source kind, outcome sequence) signatures with >=1 context-ended report.",
 		Assumptions: []string{"Blank.SetSource(static inner source) is modelled as a blocking report of the inner source's value"},
-		MinDistinct: map[string]int{"quick": 60, "thorough": 600},
+		MinDistinct: map[string]int{"quick": 600, "thorough": 60000},
 		MinCounters: map[string]map[string]int64{
 			"quick":    {"linearizable_histories": 250, "context_ended_reports": 150, "followups_after_cancellation": 150, "cancel_inside_verify": 20, "cancel_at_reply": 20},
-			"thorough": {"linearizable_histories": 15000, "context_ended_reports": 8000},
+			"thorough": {"linearizable_histories": 300000, "context_ended_reports": 150000},
 		},
 		Plan: func(tier string) fw.Plan {
 			if tier == "thorough" {
-				return fw.Plan{Shards: 16, CasesPerShard: 1300, TimeoutSec: 3000}
+				return fw.Plan{Shards: 16, CasesPerShard: 25000, TimeoutSec: 3000}
 			}
 			return fw.Plan{Shards: 8, CasesPerShard: 250, TimeoutSec: 900}
 		},
